@@ -34,6 +34,8 @@ structure Inv (ps : List (Nat × Lease)) (s : State) : Prop where
   acctLive : s.radius = true → ∀ m l, Owner ps s m l → lookup s.acct l.sess = some ⟨m, 1, 0⟩
   acctRec : ∀ k r, lookup s.acct k = some r →
     k < s.nextSess ∧ r.starts = 1 ∧ r.stops ≤ 1 ∧ (r.stops = 0 → ∃ l, Owner ps s r.mac l ∧ l.sess = k)
+  /-- no cache map is write-protected (only `OpX.wfault` does that): every Delete works -/
+  ro : s.ro = []
 
 theorem pend_unique {ps : List (Nat × Lease)} (h : (ps.map Prod.fst).Nodup) {m : Nat} {l l' : Lease}
     (h1 : (m, l) ∈ ps) (h2 : (m, l') ∈ ps) : l = l' := by
@@ -63,7 +65,7 @@ theorem owner_ip_inj {ps : List (Nat × Lease)} {s : State} (hI : Inv ps s) {m m
 
 theorem inv_init (radius : Bool) (lt : Nat) : Inv [] (init radius lt) := by
   have hp : PoolInv (mkCfg lt) { avail := (mkCfg lt).initialAvail } := Bng.Dhcp4.poolInv_init (mkCfg lt)
-  refine ⟨hp, ?_, by simp, ?_, ?_, ?_, ?_, ?_, ?_, rfl, fun _ => rfl, ?_, ?_⟩
+  refine ⟨hp, ?_, by simp, ?_, ?_, ?_, ?_, ?_, ?_, rfl, fun _ => rfl, ?_, ?_, rfl⟩
   all_goals (first
     | (intro m l h; rcases h with h | h <;> simp [init] at h)
     | (intro _ m l h; rcases h with h | h <;> simp [init] at h)
@@ -95,7 +97,7 @@ theorem owner_takeOut {ps : List (Nat × Lease)} {s : State} (_hI : Inv ps s) {m
 theorem inv_takeOut {ps : List (Nat × Lease)} {s : State} (hI : Inv ps s) {m : Nat} {l : Lease}
     (hl : lookup s.leases m = some l) : Inv ((m, l) :: ps) (takeOut s m) := by
   have ho := owner_takeOut hI hl
-  refine ⟨hI.pool, ?_, ?_, ?_, ?_, ?_, ?_, ?_, ?_, hI.kVlan, hI.acctOff, ?_, ?_⟩
+  refine ⟨hI.pool, ?_, ?_, ?_, ?_, ?_, ?_, ?_, ?_, hI.kVlan, hI.acctOff, ?_, ?_, hI.ro⟩
   · intro m' l' h
     simp only [List.mem_cons, Prod.mk.injEq] at h
     simp only [takeOut, lookup_erase]
@@ -129,14 +131,23 @@ def finish (s : State) (m : Nat) (l : Lease) (declined : Bool) : State :=
   { s with
     pool := if declined then (s.pool.release l.ip).markUnavailable l.ip else s.pool.release l.ip,
     qos := rm s.qos l.ip, qosHalf := rm s.qosHalf l.ip, nat := rm s.nat l.ip,
-    kMac := rm s.kMac m,
+    kMac := delK s.roS s.kMac m,
     kCid := match l.cid with
-      | some c => rm s.kCid (m, c)
+      | some c => delK s.roC s.kCid (m, c)
       | none => s.kCid,
     kHash := match l.cid with
-      | some c => rm s.kHash (m, c)
+      | some c => delK s.roH s.kHash (m, c)
       | none => s.kHash,
     acct := if s.radius then addStop s.acct l.sess m else s.acct }
+
+/-- while no cache map is write-protected every Delete of the tail works -/
+theorem finish_keys {s : State} (h : s.ro = []) (m : Nat) (l : Lease) (d : Bool) :
+    (finish s m l d).kMac = rm s.kMac m ∧
+    (finish s m l d).kCid = (match l.cid with | some c => rm s.kCid (m, c) | none => s.kCid) ∧
+    (finish s m l d).kHash = (match l.cid with | some c => rm s.kHash (m, c) | none => s.kHash) := by
+  unfold finish State.roS State.roC State.roH
+  rw [h]
+  refine ⟨rfl, ?_, ?_⟩ <;> (cases l.cid <;> rfl)
 
 theorem releaseTail_eq (s : State) (m : Nat) (l : Lease) : releaseTail s m l = finish s m l false := by
   unfold releaseTail finish sessionEnd uncache
@@ -219,7 +230,8 @@ theorem inv_finish {ps : List (Nat × Lease)} {s : State} {m : Nat} {l : Lease} 
   have hown : Owner ((m, l) :: ps) s m l := Or.inr (by simp)
   have hsame : ∀ {m' l'}, Owner ((m, l) :: ps) s m' l' → m' = m → l' = l := by
     intro m' l' h e; subst e; exact owner_unique hI h hown
-  refine ⟨?_, ?_, ?_, ?_, ?_, ?_, ?_, ?_, ?_, hI.kVlan, ?_, ?_, ?_⟩
+  obtain ⟨fk1, fk2, fk3⟩ := finish_keys hI.ro m l d
+  refine ⟨?_, ?_, ?_, ?_, ?_, ?_, ?_, ?_, ?_, hI.kVlan, ?_, ?_, ?_, hI.ro⟩
   · show PoolInv s.cfg (finish s m l d).pool
     unfold finish
     cases d
@@ -246,12 +258,12 @@ theorem inv_finish {ps : List (Nat × Lease)} {s : State} {m : Nat} {l : Lease} 
     refine ⟨m', l', (ho m' l').mpr ⟨h1, ?_⟩, h2⟩
     intro e; exact h'.2 (by rw [← h2, hsame h1 e])
   · intro m' h
-    have h' : m' ∈ rm s.kMac m := h
+    have h' : m' ∈ rm s.kMac m := fk1 ▸ h
     rw [mem_rm] at h'
     obtain ⟨l', h1⟩ := hI.kMac m' h'.1
     exact ⟨l', (ho m' l').mpr ⟨h1, h'.2⟩⟩
   · intro m' c h
-    have h' : (m', c) ∈ (match l.cid with | some c0 => rm s.kCid (m, c0) | none => s.kCid) := h
+    have h' : (m', c) ∈ (match l.cid with | some c0 => rm s.kCid (m, c0) | none => s.kCid) := fk2 ▸ h
     have hin : (m', c) ∈ s.kCid := by
       cases hc : l.cid with
       | none => simpa [hc] using h'
@@ -264,7 +276,7 @@ theorem inv_finish {ps : List (Nat × Lease)} {s : State} {m : Nat} {l : Lease} 
     rw [h2] at h'
     exact ((mem_rm _ _ _).mp h').2 (by rw [e])
   · intro m' c h
-    have h' : (m', c) ∈ (match l.cid with | some c0 => rm s.kHash (m, c0) | none => s.kHash) := h
+    have h' : (m', c) ∈ (match l.cid with | some c0 => rm s.kHash (m, c0) | none => s.kHash) := fk3 ▸ h
     have hin : (m', c) ∈ s.kHash := by
       cases hc : l.cid with
       | none => simpa [hc] using h'
@@ -402,7 +414,7 @@ theorem inv_pool_only {s : State} (hI : Inv [] s) (p : Pool) (hp : PoolInv s.cfg
     (hb : ∀ m l, lookup s.leases m = some l → lookup p.allocated m = some l.ip) :
     Inv [] { s with pool := p } := by
   refine ⟨hp, hI.pendFree, hI.pendNodup, ?_, hI.qos, hI.nat, hI.kMac, hI.kCid, hI.kHash, hI.kVlan, hI.acctOff,
-    hI.acctLive, hI.acctRec⟩
+    hI.acctLive, hI.acctRec, hI.ro⟩
   intro m l h
   exact hb m l (owner_nil.mp h)
 
@@ -434,59 +446,74 @@ theorem inv_discover {s : State} (hI : Inv [] s) (m : Nat) : Inv [] (discover s 
     · exact hI
     · exact hfresh
 
-/-- membership in the circuit-id key sets after `cache` -/
-theorem cache_kCid (s : State) (m : Nat) (cid : Option Nat) (m' c : Nat) :
-    ((m', c) ∈ (cache s m cid).kCid ↔ (cid = some c ∧ m' = m) ∨ (m', c) ∈ s.kCid) ∧
-    ((m', c) ∈ (cache s m cid).kHash ↔ (cid = some c ∧ m' = m) ∨ (m', c) ∈ s.kHash) := by
-  unfold cache
+/-- membership in the circuit-id key sets after the three Puts (each of which may have failed) -/
+theorem cacheF_kCid (fS fH fC : Bool) (s : State) (m : Nat) (cid : Option Nat) (m' c : Nat) :
+    ((m', c) ∈ (cacheF fS fH fC s m cid).kCid → (cid = some c ∧ m' = m) ∨ (m', c) ∈ s.kCid) ∧
+    ((m', c) ∈ (cacheF fS fH fC s m cid).kHash → (cid = some c ∧ m' = m) ∨ (m', c) ∈ s.kHash) := by
+  unfold cacheF
   cases cid with
-  | none => simp
+  | none => exact ⟨Or.inr, Or.inr⟩
   | some c0 =>
-    simp only [mem_ins, Prod.mk.injEq, Option.some.injEq]
-    constructor <;> constructor
-    · rintro (⟨h1, h2⟩ | h)
-      · exact Or.inl ⟨h2.symm, h1⟩
+    constructor
+    · intro h
+      rcases mem_putK _ _ _ _ _ h with h | h
+      · injection h with h1 h2; exact Or.inl ⟨by rw [h2], h1⟩
       · exact Or.inr h
-    · rintro (⟨h1, h2⟩ | h)
-      · exact Or.inl ⟨h2, h1.symm⟩
+    · intro h
+      rcases mem_putK _ _ _ _ _ h with h | h
+      · injection h with h1 h2; exact Or.inl ⟨by rw [h2], h1⟩
       · exact Or.inr h
-    · rintro (⟨h1, h2⟩ | h)
-      · exact Or.inl ⟨h2.symm, h1⟩
-      · exact Or.inr h
-    · rintro (⟨h1, h2⟩ | h)
-      · exact Or.inl ⟨h2, h1.symm⟩
-      · exact Or.inr h
+
+theorem cache_kCid (s : State) (m : Nat) (cid : Option Nat) (m' c : Nat) :
+    ((m', c) ∈ (cache s m cid).kCid → (cid = some c ∧ m' = m) ∨ (m', c) ∈ s.kCid) ∧
+    ((m', c) ∈ (cache s m cid).kHash → (cid = some c ∧ m' = m) ∨ (m', c) ∈ s.kHash) :=
+  cacheF_kCid _ _ _ s m cid m' c
+
+theorem cacheF_rest (fS fH fC : Bool) (s : State) (m : Nat) (cid : Option Nat) :
+    (cacheF fS fH fC s m cid).cfg = s.cfg ∧ (cacheF fS fH fC s m cid).radius = s.radius ∧
+    (cacheF fS fH fC s m cid).pool = s.pool ∧ (cacheF fS fH fC s m cid).leases = s.leases ∧
+    (cacheF fS fH fC s m cid).qos = s.qos ∧ (cacheF fS fH fC s m cid).nat = s.nat ∧
+    (cacheF fS fH fC s m cid).kVlan = s.kVlan ∧ (cacheF fS fH fC s m cid).acct = s.acct ∧
+    (cacheF fS fH fC s m cid).nextSess = s.nextSess ∧
+    (∀ x, x ∈ (cacheF fS fH fC s m cid).kMac → x = m ∨ x ∈ s.kMac) ∧ (cacheF fS fH fC s m cid).now = s.now ∧
+    (cacheF fS fH fC s m cid).ro = s.ro ∧ (cacheF fS fH fC s m cid).stale = s.stale ∧
+    (cacheF fS fH fC s m cid).early = s.early := by
+  unfold cacheF
+  cases cid <;> exact ⟨rfl, rfl, rfl, rfl, rfl, rfl, rfl, rfl, rfl, fun x h => mem_putK _ _ _ _ _ h, rfl, rfl, rfl, rfl⟩
 
 theorem cache_rest (s : State) (m : Nat) (cid : Option Nat) :
     (cache s m cid).cfg = s.cfg ∧ (cache s m cid).radius = s.radius ∧ (cache s m cid).pool = s.pool ∧
     (cache s m cid).leases = s.leases ∧ (cache s m cid).qos = s.qos ∧ (cache s m cid).nat = s.nat ∧
     (cache s m cid).kVlan = s.kVlan ∧ (cache s m cid).acct = s.acct ∧ (cache s m cid).nextSess = s.nextSess ∧
-    (cache s m cid).kMac = ins s.kMac m ∧ (cache s m cid).now = s.now := by
-  unfold cache; cases cid <;> simp
+    (∀ x, x ∈ (cache s m cid).kMac → x = m ∨ x ∈ s.kMac) ∧ (cache s m cid).now = s.now ∧
+    (cache s m cid).ro = s.ro ∧ (cache s m cid).stale = s.stale ∧ (cache s m cid).early = s.early :=
+  cacheF_rest _ _ _ s m cid
 
 theorem dropStale_rest (s : State) (m : Nat) (old new : Option Nat) :
     (dropStale s m old new).cfg = s.cfg ∧ (dropStale s m old new).radius = s.radius ∧
     (dropStale s m old new).pool = s.pool ∧ (dropStale s m old new).leases = s.leases ∧
     (dropStale s m old new).qos = s.qos ∧ (dropStale s m old new).nat = s.nat ∧
     (dropStale s m old new).kVlan = s.kVlan ∧ (dropStale s m old new).acct = s.acct ∧
-    (dropStale s m old new).nextSess = s.nextSess ∧ (dropStale s m old new).kMac = s.kMac := by
+    (dropStale s m old new).nextSess = s.nextSess ∧ (dropStale s m old new).kMac = s.kMac ∧
+    (dropStale s m old new).ro = s.ro := by
   unfold dropStale
   cases old with
   | none => simp
   | some oc => simp only; split <;> simp
 
-/-- a circuit-id key that survives `dropStale` was there before, and if it is the old circuit-id of this MAC then
-    the old circuit-id is also the new one -/
-theorem dropStale_kCid (s : State) (m : Nat) (old new : Option Nat) (m' c : Nat) :
+/-- a circuit-id key that survives `dropStale` was there before, and - every Delete works - if it is the old
+    circuit-id of this MAC then the old circuit-id is also the new one -/
+theorem dropStale_kCid (s : State) (hro : s.ro = []) (m : Nat) (old new : Option Nat) (m' c : Nat) :
     ((m', c) ∈ (dropStale s m old new).kCid → (m', c) ∈ s.kCid ∧ (m' = m → old = some c → new = some c)) ∧
     ((m', c) ∈ (dropStale s m old new).kHash → (m', c) ∈ s.kHash ∧ (m' = m → old = some c → new = some c)) := by
-  unfold dropStale
+  unfold dropStale State.roC State.roH
+  rw [hro]
   cases old with
   | none => simp
   | some oc =>
     simp only
     by_cases hne : some oc ≠ new
-    · simp only [if_pos hne, mem_rm]
+    · simp only [if_pos hne, List.contains_nil, delK_false, mem_rm]
       constructor
       · rintro ⟨h1, h2⟩
         refine ⟨h1, fun e1 e2 => ?_⟩
@@ -499,6 +526,27 @@ theorem dropStale_kCid (s : State) (m : Nat) (old new : Option Nat) (m' c : Nat)
       constructor
       · intro h; exact ⟨h, fun _ e2 => by rw [← this, e2]⟩
       · intro h; exact ⟨h, fun _ e2 => by rw [← this, e2]⟩
+
+theorem dropStale_rest2 (s : State) (m : Nat) (old new : Option Nat) :
+    (dropStale s m old new).stale = s.stale ∧ (dropStale s m old new).early = s.early ∧
+    (dropStale s m old new).now = s.now := by
+  unfold dropStale
+  cases old with
+  | none => exact ⟨rfl, rfl, rfl⟩
+  | some oc => simp only; split <;> exact ⟨rfl, rfl, rfl⟩
+
+/-- what the cache writes of a renewal leave alone -/
+theorem recache_rest (s : State) (m : Nat) (old new : Option Nat) :
+    (recache s m old new).radius = s.radius ∧ (recache s m old new).leases = s.leases ∧
+    (recache s m old new).acct = s.acct ∧ (recache s m old new).stale = s.stale ∧
+    (recache s m old new).early = s.early ∧ (recache s m old new).now = s.now := by
+  simp only [recache]
+  obtain ⟨_, c2, _, c4, _, _, _, c8, _, _, c11, _, c13, c14⟩ :=
+    cacheF_rest s.fullS (s.fullH && (dropStale s m old new).kHash.length == s.kHash.length)
+      (s.fullC && (dropStale s m old new).kCid.length == s.kCid.length) (dropStale s m old new) m new
+  obtain ⟨_, d2, _, d4, _, _, _, d8, _, _, _⟩ := dropStale_rest s m old new
+  obtain ⟨e1, e2, e3⟩ := dropStale_rest2 s m old new
+  exact ⟨c2.trans d2, c4.trans d4, c8.trans d8, c13.trans e1, c14.trans e2, c11.trans e3⟩
 
 theorem inv_renew {s : State} (hI : Inv [] s) {m : Nat} {l : Lease} (hl : lookup s.leases m = some l)
     (r : Nat) (cid : Option Nat) : Inv [] (renew s m l r cid).1 := by
@@ -517,12 +565,17 @@ theorem inv_renew {s : State} (hI : Inv [] s) {m : Nat} {l : Lease} (hl : lookup
         s1.kVlan = s.kVlan ∧ s1.acct = s.acct ∧ s1.nextSess = s.nextSess ∧ s1.kMac = s.kMac ∧ s1.kCid = s.kCid ∧
         s1.kHash = s.kHash := by rw [← hs1]; simp
     obtain ⟨a1, a2, a3, a4, a5, a6, a7, a8, a9, a10, a11⟩ := s1rest
-    obtain ⟨d1, d2, d3, d4, d5, d6, d7, d8, d9, d10⟩ := dropStale_rest s1 m l.cid cid'
-    have hD := dropStale_kCid s1 m l.cid cid'
+    have s1ro : s1.ro = [] := by rw [← hs1]; exact hI.ro
+    obtain ⟨d1, d2, d3, d4, d5, d6, d7, d8, d9, d10, d11⟩ := dropStale_rest s1 m l.cid cid'
+    have hD := dropStale_kCid s1 s1ro m l.cid cid'
+    simp only [recache]
+    generalize (s1.fullH && (dropStale s1 m l.cid cid').kHash.length == s1.kHash.length) = fH
+    generalize (s1.fullC && (dropStale s1 m l.cid cid').kCid.length == s1.kCid.length) = fC
+    generalize s1.fullS = fS
     generalize dropStale s1 m l.cid cid' = s2 at *
-    obtain ⟨c1, c2, c3, c4, c5, c6, c7, c8, c9, c10, _⟩ := cache_rest s2 m cid'
-    have hC := cache_kCid s2 m cid'
-    generalize cache s2 m cid' = s3 at *
+    obtain ⟨c1, c2, c3, c4, c5, c6, c7, c8, c9, c10, _, c12, _, _⟩ := cacheF_rest fS fH fC s2 m cid'
+    have hC := cacheF_kCid fS fH fC s2 m cid'
+    generalize cacheF fS fH fC s2 m cid' = s3 at *
     have hl3 : s3.leases = insert s.leases m nl := by rw [c4, d4, s1l]
     -- ownership after the renewal
     have hO : ∀ m' l', Owner [] s3 m' l' ↔ (m' = m ∧ l' = nl) ∨ (m' ≠ m ∧ lookup s.leases m' = some l') := by
@@ -543,12 +596,12 @@ theorem inv_renew {s : State} (hI : Inv [] s) {m : Nat} {l : Lease} (hl : lookup
       · exact ⟨l', (hO _ _).mpr (Or.inr ⟨e, h⟩), rfl, rfl, fun _ => rfl⟩
     -- a circuit-id key present afterwards belongs to an owner with that circuit-id
     have hK : ∀ (ks3 ks2 ks : List (Nat × Nat)) (m' c : Nat),
-        ((m', c) ∈ ks3 ↔ (cid' = some c ∧ m' = m) ∨ (m', c) ∈ ks2) →
+        ((m', c) ∈ ks3 → (cid' = some c ∧ m' = m) ∨ (m', c) ∈ ks2) →
         ((m', c) ∈ ks2 → (m', c) ∈ ks ∧ (m' = m → l.cid = some c → cid' = some c)) →
         (∀ m0 c0, (m0, c0) ∈ ks → ∃ l0, Owner [] s m0 l0 ∧ l0.cid = some c0) →
         (m', c) ∈ ks3 → ∃ l', Owner [] s3 m' l' ∧ l'.cid = some c := by
       intro ks3 ks2 ks m' c h3 h2 h0 h
-      rcases h3.mp h with ⟨h1, rfl⟩ | h'
+      rcases h3 h with ⟨h1, rfl⟩ | h'
       · exact ⟨nl, hnlo, nlcid.trans h1⟩
       · obtain ⟨h4, h5⟩ := h2 h'
         obtain ⟨l0, h6, h7⟩ := h0 m' c h4
@@ -559,7 +612,7 @@ theorem inv_renew {s : State} (hI : Inv [] s) {m : Nat} {l : Lease} (hl : lookup
         · obtain ⟨l'', h8, _, _, h9⟩ := hN m' l0 (owner_nil.mp h6)
           exact ⟨l'', h8, by rw [h9 e]; exact h7⟩
     refine ⟨by rw [c1, c3, d1, d3, a1, a3]; exact hI.pool, by simp, by simp, ?_, ?_, ?_, ?_, ?_, ?_,
-      by rw [c7, d7, a6]; exact hI.kVlan, ?_, ?_, ?_⟩
+      by rw [c7, d7, a6]; exact hI.kVlan, ?_, ?_, ?_, by rw [c12, d11]; exact s1ro⟩
     · intro m' l' h
       rw [c3, d3, a3]
       rcases (hO m' l').mp h with ⟨rfl, rfl⟩ | ⟨_, h'⟩
@@ -576,7 +629,8 @@ theorem inv_renew {s : State} (hI : Inv [] s) {m : Nat} {l : Lease} (hl : lookup
       obtain ⟨l'', h3, h4, _, _⟩ := hN m' l' (owner_nil.mp h1)
       exact ⟨m', l'', h3, h4.trans h2⟩
     · intro m' h
-      rw [c10, mem_ins, d10, a9] at h
+      have h := c10 m' h
+      rw [d10, a9] at h
       rcases h with rfl | h
       · exact ⟨nl, hnlo⟩
       · obtain ⟨l', h1⟩ := hI.kMac m' h
@@ -634,6 +688,14 @@ theorem natInstall_rest (s : State) (r : Nat) :
   unfold natInstall
   split <;> simp
 
+theorem qosInstall_ro (s : State) (r : Nat) : (qosInstall s r).ro = s.ro := by
+  unfold qosInstall
+  split
+  · rfl
+  · split <;> rfl
+theorem natInstall_ro (s : State) (r : Nat) : (natInstall s r).ro = s.ro := by
+  unfold natInstall
+  split <;> rfl
 theorem qosInstall_radius (s : State) (r : Nat) : (qosInstall s r).radius = s.radius := (qosInstall_rest s r).2.1
 theorem natInstall_radius (s : State) (r : Nat) : (natInstall s r).radius = s.radius := (natInstall_rest s r).2.1
 theorem qosInstall_stale (s : State) (r : Nat) : (qosInstall s r).stale = s.stale := (qosInstall_rest s r).2.2.2.2.2.2.2.2.2.2.2.1
@@ -642,26 +704,24 @@ theorem qosInstall_early (s : State) (r : Nat) : (qosInstall s r).early = s.earl
 theorem natInstall_early (s : State) (r : Nat) : (natInstall s r).early = s.early := (natInstall_rest s r).2.2.2.2.2.2.2.2.2.2.2.2.1
 
 theorem setFault_radius (s : State) (w : Nat) (on : Bool) : (setFault s w on).radius = s.radius := by
-  unfold setFault; split <;> (try split) <;> rfl
+  unfold setFault; repeat' split
+  all_goals rfl
 theorem setFault_stale (s : State) (w : Nat) (on : Bool) : (setFault s w on).stale = s.stale := by
-  unfold setFault; split <;> (try split) <;> rfl
+  unfold setFault; repeat' split
+  all_goals rfl
 theorem setFault_early (s : State) (w : Nat) (on : Bool) : (setFault s w on).early = s.early := by
-  unfold setFault; split <;> (try split) <;> rfl
+  unfold setFault; repeat' split
+  all_goals rfl
 
 theorem inv_setFault {ps : List (Nat × Lease)} {s : State} (hI : Inv ps s) (w : Nat) (on : Bool) :
     Inv ps (setFault s w on) := by
   unfold setFault
-  split
-  · exact ⟨hI.pool, hI.pendFree, hI.pendNodup, hI.bind, hI.qos, hI.nat, hI.kMac, hI.kCid, hI.kHash, hI.kVlan,
-      hI.acctOff, hI.acctLive, hI.acctRec⟩
-  · split
-    · exact ⟨hI.pool, hI.pendFree, hI.pendNodup, hI.bind, hI.qos, hI.nat, hI.kMac, hI.kCid, hI.kHash, hI.kVlan,
-        hI.acctOff, hI.acctLive, hI.acctRec⟩
-    · exact ⟨hI.pool, hI.pendFree, hI.pendNodup, hI.bind, hI.qos, hI.nat, hI.kMac, hI.kCid, hI.kHash, hI.kVlan,
-        hI.acctOff, hI.acctLive, hI.acctRec⟩
+  repeat' split
+  all_goals exact ⟨hI.pool, hI.pendFree, hI.pendNodup, hI.bind, hI.qos, hI.nat, hI.kMac, hI.kCid, hI.kHash, hI.kVlan,
+      hI.acctOff, hI.acctLive, hI.acctRec, hI.ro⟩
 
-theorem cache_early' (s : State) (m : Nat) (cid : Option Nat) : (cache s m cid).early = s.early := by
-  unfold cache; cases cid <;> rfl
+theorem cache_early' (s : State) (m : Nat) (cid : Option Nat) : (cache s m cid).early = s.early :=
+  (cache_rest s m cid).2.2.2.2.2.2.2.2.2.2.2.2.2
 
 theorem inv_establish {s : State} (hI : Inv [] s) {m : Nat} (hl : lookup s.leases m = none)
     (r : Nat) (cid : Option Nat) : Inv [] (establish s m r cid).1 := by
@@ -686,7 +746,7 @@ theorem inv_establish {s : State} (hI : Inv [] s) {m : Nat} (hl : lookup s.lease
             s1.kVlan = s.kVlan ∧ s1.acct = s.acct ∧ s1.nextSess = s.nextSess ∧ s1.kMac = s.kMac ∧
             s1.kCid = s.kCid ∧ s1.kHash = s.kHash ∧ s1.leases = insert s.leases m nl := by rw [← hs1]; simp
         obtain ⟨a1, a2, a3, a4, a5, a6, a7, a8, a9, a10, a11, a12⟩ := s1rest
-        obtain ⟨c1, c2, c3, c4, c5, c6, c7, c8, c9, c10, _⟩ := cache_rest s1 m cid
+        obtain ⟨c1, c2, c3, c4, c5, c6, c7, c8, c9, c10, _, c12, _, _⟩ := cache_rest s1 m cid
         have hC := cache_kCid s1 m cid
         generalize cache s1 m cid = s2 at *
         have hO : ∀ (s' : State), s'.leases = s2.leases → ∀ m' l', Owner [] s' m' l' ↔
@@ -721,7 +781,8 @@ theorem inv_establish {s : State} (hI : Inv [] s) {m : Nat} (hl : lookup s.lease
         have hnlo : Owner [] s3 m nl := (hO s3 hl3 _ _).mpr (Or.inl ⟨rfl, rfl⟩)
         have hN3 := hN s3 hl3
         have hO3 := hO s3 hl3
-        have r3 : s3.cfg = s.cfg ∧ s3.radius = s.radius ∧ s3.pool = p ∧ s3.kVlan = s.kVlan ∧ s3.kMac = ins s.kMac m ∧
+        have r3 : s3.cfg = s.cfg ∧ s3.radius = s.radius ∧ s3.pool = p ∧ s3.kVlan = s.kVlan ∧
+            (∀ x, x ∈ s3.kMac → x = m ∨ x ∈ s.kMac) ∧
             s3.kCid = s2.kCid ∧ s3.kHash = s2.kHash ∧ (∀ a, a ∈ s3.qos → a = r ∨ a ∈ s.qos) ∧
             (∀ a, a ∈ s3.nat → a = r ∨ a ∈ s.nat) ∧
             s3.acct = (if s.radius = true then addStart s.acct k m else s.acct) ∧
@@ -732,13 +793,17 @@ theorem inv_establish {s : State} (hI : Inv [] s) {m : Nat} (hl : lookup s.lease
           · show (natInstall (qosInstall s2 r) r).radius = _; rw [n2, q2, c2, a2]
           · show (natInstall (qosInstall s2 r) r).pool = _; rw [n3, q3, c3, a3]
           · show (natInstall (qosInstall s2 r) r).kVlan = _; rw [n7, q7, c7, a6]
-          · show (natInstall (qosInstall s2 r) r).kMac = _; rw [n6, q6, c10, a9]
+          · show ∀ x, x ∈ (natInstall (qosInstall s2 r) r).kMac → _
+            rw [n6, q6]; intro x hx; have := c10 x hx; rw [a9] at this; exact this
           · show (natInstall (qosInstall s2 r) r).kCid = _; rw [n8, q8]
           · show (natInstall (qosInstall s2 r) r).kHash = _; rw [n9, q9]
           · show (if s.radius = true then addStart s2.acct k m else s2.acct) = _; rw [c8, a7]
         obtain ⟨r1, r2, r3', r4, r5, r6, r7, r8, r9, r10, r11⟩ := r3
+        have s3ro : s3.ro = [] := by
+          rw [← hs3]; show (natInstall (qosInstall s2 r) r).ro = []
+          rw [natInstall_ro, qosInstall_ro, c12, ← hs1]; exact hI.ro
         refine ⟨by rw [r1, r3', hp]; exact Bng.Dhcp4.poolInv_reserve hI.pool m r, by simp, by simp, ?_, ?_, ?_, ?_,
-          ?_, ?_, by rw [r4]; exact hI.kVlan, ?_, ?_, ?_⟩
+          ?_, ?_, by rw [r4]; exact hI.kVlan, ?_, ?_, ?_, s3ro⟩
         · intro m' l' h
           rw [r3', hp]
           rcases (hO3 m' l').mp h with ⟨rfl, rfl⟩ | ⟨hne, h'⟩
@@ -755,21 +820,20 @@ theorem inv_establish {s : State} (hI : Inv [] s) {m : Nat} (hl : lookup s.lease
           · obtain ⟨m', l', h1, h2⟩ := hI.nat a h
             exact ⟨m', l', hN3 _ _ h1, h2⟩
         · intro m' h
-          rw [r5, mem_ins] at h
-          rcases h with rfl | h
+          rcases r5 m' h with rfl | h
           · exact ⟨nl, hnlo⟩
           · obtain ⟨l', h1⟩ := hI.kMac m' h
             exact ⟨l', hN3 _ _ h1⟩
         · intro m' c h
           rw [r6] at h
-          rcases (hC m' c).1.mp h with ⟨h1, rfl⟩ | h
+          rcases (hC m' c).1 h with ⟨h1, rfl⟩ | h
           · exact ⟨nl, hnlo, nlcid.trans h1⟩
           · rw [a10] at h
             obtain ⟨l', h1, h2⟩ := hI.kCid m' c h
             exact ⟨l', hN3 _ _ h1, h2⟩
         · intro m' c h
           rw [r7] at h
-          rcases (hC m' c).2.mp h with ⟨h1, rfl⟩ | h
+          rcases (hC m' c).2 h with ⟨h1, rfl⟩ | h
           · exact ⟨nl, hnlo, nlcid.trans h1⟩
           · rw [a11] at h
             obtain ⟨l', h1, h2⟩ := hI.kHash m' c h
@@ -831,7 +895,7 @@ theorem inv_step {s : State} (hI : Inv [] s) (op : Op) : Inv [] (step s op).1 :=
   | term t => exact inv_term hI t
   | tick n =>
     exact ⟨hI.pool, hI.pendFree, hI.pendNodup, hI.bind, hI.qos, hI.nat, hI.kMac, hI.kCid, hI.kHash, hI.kVlan,
-      hI.acctOff, hI.acctLive, hI.acctRec⟩
+      hI.acctOff, hI.acctLive, hI.acctRec, hI.ro⟩
   | gap o inner => exact inv_gap hI o inner
   | split a b => exact inv_split hI a b
   | shutdown => exact hI
@@ -909,6 +973,7 @@ theorem ended_finish_other {ps : List (Nat × Lease)} {s : State} {m m' : Nat} {
     (hI : Inv ((m', l') :: ps) s) (hE : Ended s m l d) (d' : Bool) : Ended (finish s m' l' d') m l d := by
   have hown : Owner ((m', l') :: ps) s m' l' := Or.inr (by simp)
   have hb : lookup s.pool.allocated m' = some l'.ip := hI.bind m' l' hown
+  obtain ⟨fk1, fk2, fk3⟩ := finish_keys hI.ro m' l' d'
   refine ⟨hE.noLease, ?_, ?_, ?_, ?_, ?_, hE.noVlanKey, ?_, ?_⟩
   · rw [finish_alloc hI d', lookup_erase]
     split
@@ -938,18 +1003,18 @@ theorem ended_finish_other {ps : List (Nat × Lease)} {s : State} {m m' : Nat} {
     have h' : l.ip ∈ rm s.qos l'.ip := h
     exact hE.noQos ((mem_rm _ _ _).mp h').1
   · intro h
-    have h' : m ∈ rm s.kMac m' := h
+    have h' : m ∈ rm s.kMac m' := fk1 ▸ h
     exact hE.noMacKey ((mem_rm _ _ _).mp h').1
   · intro c
     constructor
     · intro h
-      have h' : (m, c) ∈ (match l'.cid with | some c0 => rm s.kCid (m', c0) | none => s.kCid) := h
+      have h' : (m, c) ∈ (match l'.cid with | some c0 => rm s.kCid (m', c0) | none => s.kCid) := fk2 ▸ h
       apply (hE.noCidKey c).1
       cases hc : l'.cid with
       | none => simpa [hc] using h'
       | some c0 => rw [hc] at h'; exact ((mem_rm _ _ _).mp h').1
     · intro h
-      have h' : (m, c) ∈ (match l'.cid with | some c0 => rm s.kHash (m', c0) | none => s.kHash) := h
+      have h' : (m, c) ∈ (match l'.cid with | some c0 => rm s.kHash (m', c0) | none => s.kHash) := fk3 ▸ h
       apply (hE.noCidKey c).2
       cases hc : l'.cid with
       | none => simpa [hc] using h'
@@ -1479,7 +1544,7 @@ theorem step_radius (s : State) (op : Op) : (step s op).1.radius = s.radius := b
       simp only [renew]
       split
       · rfl
-      · simp only [(cache_rest _ _ _).2.1, (dropStale_rest _ _ _ _).2.1]
+      · simp only [(recache_rest _ _ _ _).1]
   | term t => exact term_radius t s
   | tick n => rfl
   | gap o inner =>
@@ -1582,7 +1647,7 @@ theorem step_stale (s : State) (op : Op) : (step s op).1.stale = s.stale := by
       simp only [renew]
       split
       · rfl
-      · simp only [cache_stale, dropStale_stale]
+      · simp only [(recache_rest _ _ _ _).2.2.2.1]
   | term t => exact term_stale t s
   | tick n => rfl
   | gap o inner =>
